@@ -157,6 +157,9 @@ func (wd *c14World) newLeaf(flavor, name string) *c14Cert {
 		c.chain = false
 		c.url = flavor == "noissuer-aia" // the issuer can be downloaded, so the responder can be asked
 	}
+	if flavor == "muststaple" && !doubles.HasMustStaple(leaf) {
+		wd.setupFailed("must-staple leaf", errors.New("the TLS feature extension is not in the leaf"))
+	}
 	c.setKey()
 	wd.recordCodeKeys(c)
 	return c
@@ -957,6 +960,8 @@ func (wd *c14World) runHist1(plan c14Plan, desc map[string]any, abandoned *bool)
 		t.addCert(c)
 		h.issued = append(h.issued, c)
 	}
+	mustStaple := map[string]bool{} // managed names whose certificates (renewals included) carry must-staple
+	h.iss.MustStaple = func(names []string) bool { return len(names) > 0 && mustStaple[names[0]] }
 	h.newInstance()
 	defer func() { h.cache.Stop() }()
 	// the plan's certificates
@@ -967,6 +972,8 @@ func (wd *c14World) runHist1(plan c14Plan, desc map[string]any, abandoned *bool)
 			// issued through the real obtain path so that storage holds a loadable resource
 			h.iss.NotAfter = nil
 			switch pc.Flavor {
+			case "muststaple":
+				mustStaple[name] = true
 			case "short":
 				h.iss.NotAfter = func() time.Time { return time.Now().Add(3 * 24 * time.Hour) }
 			case "tenday":
@@ -979,6 +986,9 @@ func (wd *c14World) runHist1(plan c14Plan, desc map[string]any, abandoned *bool)
 			}
 			h.iss.NotAfter = nil
 			h.issued[0].flavor = pc.Flavor
+			if pc.Flavor == "muststaple" && !doubles.HasMustStaple(h.issued[0].leaf) {
+				wd.setupFailed("must-staple leaf from the issuer double", errors.New("the TLS feature extension is not in the leaf"))
+			}
 			planned = append(planned, h.issued[0])
 		} else {
 			c := wd.newLeaf(pc.Flavor, name)
@@ -1016,6 +1026,7 @@ func (wd *c14World) runHist1(plan c14Plan, desc map[string]any, abandoned *bool)
 	// exactly those bytes under ANY ocsp/ key while it attached them) and the harness has not
 	// touched since; prevStaple: the staples of the previous snapshot
 	own := map[int][]byte{}
+	ownKey := map[int]string{}
 	prevStaple := map[int]string{}
 	// observe encodes what can be seen after an operation (or in the middle of one): the cache,
 	// the persisted staples, the calls made since (mark, lmark), and what GetCertificate serves
@@ -1042,6 +1053,17 @@ func (wd *c14World) runHist1(plan c14Plan, desc map[string]any, abandoned *bool)
 		snap, _ := h.snapshot(se)
 		reqs := wd.resp.Since(mark)
 		ops := h.b.Log.Snapshot()[lmark:]
+		// what the implementation itself later writes to (or deletes at) the key where it persisted
+		// a certificate's own staple supersedes that staple: it is no longer "what it persisted"
+		for idx, k := range ownKey {
+			for _, o := range ops {
+				if o.Key == k && o.Err == "" && ((o.Kind == "Store" && o.Digest != doubles.Digest(own[idx])) || o.Kind == "Delete") {
+					delete(own, idx)
+					delete(ownKey, idx)
+					break
+				}
+			}
+		}
 		curStaple := map[int]string{}
 		for _, v := range certmagic.VerifCacheOCSPSnapshot(h.cache) {
 			c := t.certBySerial(v.Serial)
@@ -1055,6 +1077,7 @@ func (wd *c14World) runHist1(plan c14Plan, desc map[string]any, abandoned *bool)
 			for _, o := range ops { // newly attached: did the implementation persist it (anywhere)?
 				if o.Kind == "Store" && strings.HasPrefix(o.Key, "ocsp/") && o.Err == "" && o.Digest == doubles.Digest(v.Staple) {
 					own[c.idx] = append([]byte(nil), v.Staple...)
+					ownKey[c.idx] = o.Key
 				}
 			}
 		}
@@ -1113,6 +1136,7 @@ func (wd *c14World) runHist1(plan c14Plan, desc map[string]any, abandoned *bool)
 			}
 			sa := c14Stored[op.Stored]
 			delete(own, c.idx) // the harness interferes with this certificate's persisted staple
+			delete(ownKey, c.idx)
 			se.Int(0).Int(c.idx)
 			if sa == nil {
 				h.b.Remove(c.key)
@@ -1559,7 +1583,7 @@ func (wd *c14World) randPlan(r *rand.Rand) c14Plan {
 	n := 1 + r.Intn(3)
 	storedKeys := c14StoredKeys()
 	for i := 0; i < n; i++ {
-		fl := []string{"normal", "normal", "normal", "short", "tenday", "nourl", "expired"}[r.Intn(7)]
+		fl := []string{"normal", "normal", "normal", "short", "tenday", "nourl", "expired", "muststaple", "muststaple"}[r.Intn(9)]
 		managed := r.Intn(2) == 0
 		if managed && (fl == "nourl" || fl == "expired") {
 			fl = "normal"
@@ -1838,6 +1862,31 @@ func runC14(tier string, seed int64, outdir string, replay string) error {
 			p.PreCompromised = pre
 			wd.runHist(p, map[string]any{"class": fmt.Sprintf("key-compromise-twice-restart-pre%v", pre)})
 		}
+	}
+	// certificates with the OCSP must-staple extension on every load path (cache managed /
+	// unmanaged, reload after a renewal, restart, manageOne, handshake) while the responder is down
+	// or says nothing usable and nothing fresh is persisted: they must be cached and served all the same
+	for i, a := range []c14Ans{{Kind: "drop"}, {Kind: "refused"}, {Kind: "garbage", HTTP: 500}, {Kind: "empty", HTTP: 503},
+		{Kind: "resp", Status: ocsp.Unknown, Serial: "right", This: "recent", Next: "week", Signer: "ca"},
+		{Kind: "resp", Status: ocsp.Good, Serial: "right", This: "old", Next: "past", Signer: "ca"}} {
+		down := one(a)
+		down["new"] = a
+		rv := one(revokedAns(0))
+		rv["new"] = a
+		wd.runHist(mkPlan("m:muststaple,u:muststaple",
+			c14HOp{Op: "cache", Cert: 0, Ans: down},
+			c14HOp{Op: "cache", Cert: 1, Ans: down},
+			c14HOp{Op: "maintain", Ans: down, Renew: "ok"},
+			c14HOp{Op: "restart"},
+			c14HOp{Op: "manage", Cert: 0, Ans: down, Renew: "ok"},
+			c14HOp{Op: "cache", Cert: 1, Ans: down},
+			c14HOp{Op: "maintain", Ans: one(staleG), Renew: "ok"},
+			c14HOp{Op: "handshake", Cert: 0, Ans: down, Renew: "ok"},
+			c14HOp{Op: "maintain", Ans: rv, Renew: "ok"}, // replaced; the replacement is loaded while the responder is down
+			c14HOp{Op: "restart"},
+			c14HOp{Op: "tamper", Cert: 0, Stored: "stale"},
+			c14HOp{Op: "cache", Cert: 0, Ans: down},
+			c14HOp{Op: "maintain", Ans: one(goodAns()), Renew: "ok"}), map[string]any{"class": fmt.Sprintf("must-staple-responder-down-%d", i)})
 	}
 	// maintenance ticks across a restart over the same storage
 	wd.runHist(mkPlan("m:normal,u:tenday",
